@@ -1,3 +1,4 @@
+import DcmVerif.Props.Source_phoenix
 import DcmVerif.Proofs.PhoenixRT
 /-! Property theorems for C16. Statements only; proofs are by reference to `Proofs/`. -/
 set_option autoImplicit false
